@@ -364,9 +364,12 @@ def judge(case: Dict[str, Any], obs: Any) -> None:
 
 
 def is_twin(inst: Any) -> bool:
-    """A request of the second connection (told by its header, not by its path: a generated
-    path such as /twin%2F decodes into that namespace)."""
-    return any(bytes(n).lower() == b"x-twin" for n, _ in inst.scope.get("headers") or [])
+    """A request of the second connection, told by its Host - a name the generators of the
+    first connection's requests never use (they sample Host / :authority from fixed lists and
+    keep `host` out of the free header names). Not by its path or another header: generated
+    paths (/twin%2F) and header names (x-twin) have both walked into those namespaces."""
+    return any(bytes(n).lower() == b"host" and bytes(v) == b"twin.example"
+               for n, v in inst.scope.get("headers") or [])
 
 
 def twin_requests(case: Dict[str, Any]) -> List[Dict[str, Any]]:
